@@ -241,6 +241,9 @@ func structFields(rel, name string) string {
 		if st, ok := ts.Type.(*ast.StructType); ok {
 			for _, fl := range st.Fields.List {
 				t := exprText(f.fset, fl.Type)
+				if len(fl.Names) == 0 {
+					out = append(out, t) // embedded
+				}
 				for _, n := range fl.Names {
 					out = append(out, n.Name+" "+t)
 				}
